@@ -1,0 +1,71 @@
+//go:build verif
+
+package crlloader
+
+//@ spec func loaderOK(l ref) bool = l != nil && (typeis(l, *URLLoader) ==> as(l, *URLLoader) != nil && as(l, *URLLoader).Logger != nil) && (typeis(l, *FileLoader) ==> as(l, *FileLoader) != nil && as(l, *FileLoader).Logger != nil) && (typeis(l, *MultiSchemesCRLLoader) ==> multiOK(as(l, *MultiSchemesCRLLoader)))
+//@ spec func multiOK(m ref) bool = m != nil && m.Logger != nil && (forall i int :: 0 <= i && i < len(m.Loaders) ==> m.Loaders[i] != nil && typeis(m.Loaders[i], *URLLoader) && as(m.Loaders[i], *URLLoader) != nil && as(m.Loaders[i], *URLLoader).Logger != nil) && (m.lastSuccessfulLoader != nil ==> typeis(m.lastSuccessfulLoader, *URLLoader) && as(m.lastSuccessfulLoader, *URLLoader) != nil && as(m.lastSuccessfulLoader, *URLLoader).Logger != nil)
+//@ spec func isHex64(s string) bool uninterpreted
+//@ spec func locId(s string) string = hexOf(digestOf(crypto.SHA256, s))
+//@ axiom hex_of_sha256_is_hex64: forall s string :: isHex64(hexOf(digestOf(crypto.SHA256, s)))
+
+//@ func CRLLoader.LoadCRL
+//@   props C10 C20 C17
+//@   requires loaderOK(self)
+//@   assigns X.fs, X.net, X.retry, *self
+//@   ensures loaderOK(self)
+//@ func CRLLoader.GetCRLLocationIdentifier
+//@   props C20 C10
+//@   requires loaderOK(self)
+//@   pure
+//@   ensures[C20] id_is_safe_name: err == nil ==> isHex64(ret)
+//@ func CRLLoader.GetDescription
+//@   props C20
+//@   requires loaderOK(self)
+//@   pure
+
+//@ func calculateHashHexString
+//@   props C20
+//@   assigns X.hacc, X.hkind
+//@   ensures[C20] ret == locId(normalizedUrl)
+
+//@ func CRLLoaderFactory.CreatePreferredCrlLoader
+//@   props C10 C20
+//@   requires crlLocations != nil && logger != nil
+//@   pure
+//@   fresh r0
+//@   ensures err == nil ==> loaderOK(ret)
+//@   ensures[C10] fails_only_without_usable_location: err != nil ==> len(crlLocations.CRLUrl) == 0 && len(crlLocations.CRLFile) == 0 && (forall i int :: 0 <= i && i < len(crlLocations.CRLDistributionPoints) ==> !hasprefix(lower(crlLocations.CRLDistributionPoints[i]), "http"))
+//@   ensures[C10] succeeds_with_usable_location: (len(crlLocations.CRLUrl) > 0 || len(crlLocations.CRLFile) > 0 || (exists i int :: 0 <= i && i < len(crlLocations.CRLDistributionPoints) && hasprefix(lower(crlLocations.CRLDistributionPoints[i]), "http"))) ==> err == nil
+
+//@ func DefaultCRLLoaderFactory.CreatePreferredCrlLoader
+//@   props C10 C20
+//@   loop 1 invariant forall k int :: 0 <= k && k < len(cdpLoaders) ==> cdpLoaders[k] != nil && typeis(cdpLoaders[k], *URLLoader) && as(cdpLoaders[k], *URLLoader) != nil && as(cdpLoaders[k], *URLLoader).Logger != nil
+//@   loop 1 invariant forall i int :: 0 <= i && i <= $idx && hasprefix(lower(crlLocations.CRLDistributionPoints[i]), "http") ==> len(cdpLoaders) > 0
+//@   loop 1 invariant len(cdpLoaders) > 0 ==> exists i int :: 0 <= i && i <= $idx && hasprefix(lower(crlLocations.CRLDistributionPoints[i]), "http")
+
+//@ func URLLoader.normalizeUrl
+//@   props C20
+//@   requires L != nil
+//@   pure
+//@ func URLLoader.downloadCRL
+//@   props C17 C20
+//@   requires L != nil
+//@   assigns X.fs, X.net
+//@ func URLLoader.DownloadFromUrlWithRetries
+//@   props C17 C20
+//@   requires L != nil && L.Logger != nil
+//@   assigns X.fs, X.net, X.retry
+//@ func FileLoader.copyToTargetFile
+//@   props C17 C20
+//@   requires f != nil
+//@   assigns X.fs
+
+//@ func MultiSchemesCRLLoader.LoadCRL
+//@   props C10 C20
+//@   loop 1 invariant multiOK(f) && f.Loaders == old(f.Loaders)
+//@ func MultiSchemesCRLLoader.GetCRLLocationIdentifier
+//@   props C20
+//@   loop 1 invariant multiOK(f)
+//@ func MultiSchemesCRLLoader.GetDescription
+//@   props C20
+//@   loop 1 invariant multiOK(f)
